@@ -251,6 +251,8 @@ def run(ctx):
         for v in [x['name'] for x in adt['variants']]:
             ctx.ob(R3, f'push_str·{v}', v in handled or '*' in handled, f'push_str arm for {v}: {v in handled}')
 
+    import_rescale_rule(ctx, prog, 'C20-R8')
+
 
 def __pl(p):
     from mir import operand_places
@@ -271,3 +273,65 @@ def _consts(x):
                 walk(v)
     walk(x)
     return out
+
+
+def import_rescale_rule(ctx, prog, R):
+    """C20-R8 = C16-R10: INSERT and COPY FROM bring a DECIMAL to the same scale"""
+    from tmpl import local_defs
+    ctx.rule(R, 'a DECIMAL column gets its values by two routes - INSERT (ArrayImpl::cast) and COPY FROM (CopyFromFileExecutor) - and both rescale '
+                'them; the amount of every such rescale is the `s` of a declared DECIMAL(p, s), read out of the DataType, and nothing else: no '
+                'constant, no default for a type without scale. Otherwise what INSERT stored and COPY TO wrote is rounded differently by COPY FROM '
+                '(DECIMAL(12) holds 0.5 after INSERT and 1 after an export / import)')
+    sites_ = [c for c in prog.calls_matching(r'PrimitiveArray::<rust_decimal::Decimal>::rescale$') if not c.body.name.startswith('array::primitive_array::')]
+    ctx.floor(R, len(sites_), 2, 'rescale calls outside the array itself (cast, COPY FROM)')
+    for c in sites_:
+        b = c.body
+        ctx.functions_analysed.add(b.name)
+        leaves, seen = set(), set()
+
+        def walk(l, depth=10):
+            if l in seen or depth < 0:
+                return
+            seen.add(l)
+            ds = local_defs(b, l)
+            if not ds:
+                leaves.add(('input', b.var_name(l) or f'_{l}'))
+            for _, kind, payload in ds:
+                if kind == 'assign':
+                    rv = payload
+                    pls = __pl(rv) + ([rv['pl']] if rv.get('rv') == 'ref' else [])
+                    if any('as:Decimal' in pl['p'] for pl in pls):
+                        leaves.add(('type', 'DataType::Decimal(_, Some(s))' if any('as:Some' in pl['p'] for pl in pls) else 'DataType::Decimal'))
+                        continue
+                    if rv.get('rv') == 'agg' and (rv.get('adt') or '').endswith('option::Option') and rv.get('variant') == 'Some' and \
+                            any(o['k'] == 'const' for o in rv.get('ops', [])):
+                        leaves.add(('constant', str([o.get('v') for o in rv['ops']])))
+                    if rv.get('rv') == 'use' and rv['op'].get('k') == 'const':
+                        leaves.add(('constant', str(rv['op'].get('v'))))
+                    for pl in pls:
+                        walk(pl['l'], depth - 1)
+                else:
+                    leaves.add(('call', (payload.get('fn') or '?').rsplit('::', 1)[-1]))
+        if len(c.args) > 1 and c.args[1]['k'] != 'const':
+            walk(c.args[1]['pl']['l'])
+        else:
+            leaves.add(('constant', 'literal'))
+        # the scale may be prepared elsewhere in the function (a list of scales built by a closure): look at the whole group as well
+        if not any(x[0] == 'type' for x in leaves):
+            for g in prog.group(b.root):
+                for _, st in g.stmts():
+                    if st['s'] != 'assign':
+                        continue
+                    rv = st['rv']
+                    pls = __pl(rv) + ([rv['pl']] if rv.get('rv') == 'ref' else [])
+                    if any('as:Decimal' in pl['p'] and 'as:Some' in pl['p'] for pl in pls):
+                        leaves.add(('type', 'DataType::Decimal(_, Some(s)) (in ' + g.name.rsplit('::', 1)[-1] + ')'))
+                    if rv.get('rv') == 'agg' and (rv.get('adt') or '').endswith('option::Option') and rv.get('variant') == 'Some' and \
+                            any(o['k'] == 'const' for o in rv.get('ops', [])) and 'u8' in g.local_ty(st['lhs']['l']):
+                        leaves.add(('constant', 'Some(' + str([o.get('v') for o in rv['ops']][0]) + ') in ' + g.name.rsplit('::', 1)[-1]))
+        bad = sorted(x for x in leaves if x[0] in ('constant',))
+        ok = any(x[0] == 'type' for x in leaves) and not bad
+        ctx.ob(R, f'{b.root}·rescale-by-the-declared-scale', ok,
+               f'{b.name} block {c.bb}: the scale comes from {sorted(leaves)}', [site(b, c.bb)],
+               what=f'{b.root.rsplit("::", 2)[-2]} rescales decimals by an amount that is not (only) the declared scale of the column: the two routes into '
+                    'a DECIMAL column round differently, so COPY TO + COPY FROM changes values that INSERT stored')
